@@ -129,7 +129,12 @@ fn check_pass(out: &mut CaseOut, cov: &mut Cov, ctx: &CaseCtx, vs: &ValidStream,
     if flush_between {
         cov.name("passes_with_flush_between_pieces", 1);
     }
-    let d = DriveOpts { skip_finish: true, flush_between, ..Default::default() };
+    // ... and so must zero-length writes between the pieces (every fourth pass)
+    let empty_writes = (cuts.len() + vs.file.len()) % 4 == 1;
+    if empty_writes {
+        cov.name("passes_with_empty_writes_between_pieces", 1);
+    }
+    let d = DriveOpts { skip_finish: true, flush_between, empty_writes, ..Default::default() };
     let run = streamdrv::drive(&vs.file, &vs.options, cuts, &d, &sink, &obs);
     out.evals += 1;
     let data = || J::obj().set("input_hex", J::s(crate::util::hex_trunc(&vs.file, 4096))).set("stream", J::s(vs.desc.as_str())).set("chunking", J::s(chunking)).set("cuts", J::s(format!("{:?}", &cuts[..cuts.len().min(40)])));
@@ -189,7 +194,7 @@ fn check_pass(out: &mut CaseOut, cov: &mut Cov, ctx: &CaseCtx, vs: &ValidStream,
 fn check_prefix_finish(out: &mut CaseOut, cov: &mut Cov, vs: &ValidStream, n: usize, cuts: &[usize], chunking: &str) -> bool {
     let sink = SharedSink::varied(case_hash(&[&vs.file]) ^ (n as u64).wrapping_mul(31) ^ cuts.len() as u64, 1 << 17);
     let obs = sut::new_obs(u64::MAX);
-    let run = streamdrv::drive(&vs.file[..n], &vs.options, cuts, &DriveOpts { flush_between: (n + cuts.len()) % 3 == 0, ..Default::default() }, &sink, &obs);
+    let run = streamdrv::drive(&vs.file[..n], &vs.options, cuts, &DriveOpts { flush_between: (n + cuts.len()) % 3 == 0, empty_writes: (n + cuts.len()) % 4 == 1, ..Default::default() }, &sink, &obs);
     out.evals += 1;
     cov.inc("prefix_finish_chunking", match chunking { "one write" => 0, "1-byte writes" => 1, "random" => 2, _ => 3 });
     let data = || J::obj().set("input_hex", J::s(crate::util::hex_trunc(&vs.file[..n], 4096))).set("stream", J::s(vs.desc.as_str())).set("prefix_len", J::i(n)).set("chunking", J::s(chunking));
